@@ -799,6 +799,9 @@ class CircuitTemplate(AbstractBaseTemplate):
             for key, value in node_values.items():
                 *node_id, op, var = key.split("/")
                 target_nodes = self.get_nodes(node_id)
+                if not target_nodes:
+                    warn(PyRatesWarning(f"node_values: no node matches `{'/'.join(node_id)}`; the value for `{key}` is not "
+                                        f"applied."))
                 for i, n in enumerate(target_nodes):
                     if n not in values:
                         values[n] = dict()
